@@ -31,3 +31,25 @@ void h_NrDyingDescendants__run(void)
   NrDyingDescendants__run(self, ctx);
   __CPROVER_assert(0, "canary: contract precondition satisfiable and function exit reachable");
 }
+
+/* ================= init(): the arguments this plugin declares (C12) =================
+ * Names and required flags as documented in docs/core_plugins.md, with one deliberate difference: `cgroup` is declared
+ * optional by every plugin except senpai, because a ruleset-level `cgroup` supplies it per instance
+ * (Ruleset::registerRunnableRulesetForCgroupPath, unit ruleset_cgroup). */
+#include "init_common.h"
+DEF_PARSE(PluginArgParser)
+uset_CgroupPath PluginArgParser__parseCgroup(PluginConstructionContext c, str_t s);
+void PluginArgParser__addArgumentCustom__str_t_uset_CgroupPath_function_t__Bool(PluginArgParser p, str_t name, uset_CgroupPath dest, function_t fn, _Bool required)
+{ __CPROVER_assert(fn == (function_t)7, "the cgroup argument is parsed by PluginArgParser::parseCgroup with this plugin's construction context"); REG(name, (const void *)(long)dest, required, 1); }
+#define lambda_bind__NrDyingDescendants__init__lambda_addArgumentCustom(ctx) ((lambda_t)7)
+void PluginArgParser__addArgument__str_t__Bool__Bool(PluginArgParser p, str_t name, _Bool *dest, _Bool required) { REG(name, dest, required, 0); }
+int64_t PluginArgParser__parseUnsignedInt(str_t s);
+void PluginArgParser__addArgumentCustom__str_t_int64_t_function_t__Bool(PluginArgParser p, str_t name, int64_t *dest, function_t fn, _Bool required)
+{ __CPROVER_assert(fn == (function_t)PluginArgParser__parseUnsignedInt, "`count` is read by parseUnsignedInt (non-negative integers only)"); REG(name, dest, required, 1); }
+int NrDyingDescendants__init(NrDyingDescendants *self, umap_str_t_str_t args, PluginConstructionContext context)
+  __CPROVER_requires(__CPROVER_is_fresh(self, sizeof(*self)) && ghost_exc == 0 && g_reg_n == 0 && g_parse_calls == 0)
+  __CPROVER_assigns(REG_ASSIGNS)
+  __CPROVER_ensures(INIT_CORE(4)) /*@C12*/
+  __CPROVER_ensures(HASREG(STR_cgroup, (long)self->cgroups_, 0) && HASREG(STR_count, &self->count_, 1) && HASREG(STR_lte, &self->lte_, 0) && HASREG(STR_debug, &self->debug_, 0)) /*@C12,C08*/
+  __CPROVER_ensures(ghost_exc == 0);
+void h_NrDyingDescendants__init(void) { NrDyingDescendants *self; umap_str_t_str_t a; PluginConstructionContext c; HAVOC_REG(); HAVOC(ghost_exc); NrDyingDescendants__init(self, a, c); __CPROVER_assert(0, "canary: contract precondition satisfiable and function exit reachable"); }
